@@ -12,7 +12,7 @@
 (* of the file is DERIVED from what its declarations use (a Go file with   *)
 (* an unused import is not a Go file), see ImportsBefore.                  *)
 (*                                                                         *)
-(* A declaration is the uniform record Dc(k, d, n, r, rk, u, g, specs):    *)
+(* A declaration is the uniform record Dc(k, d, n, r, rk, u, su, g, specs): *)
 (*   k     "func" | "meth" | "lnk" | "type" | "var" | "const"              *)
 (*         ("lnk" = body-less func carrying a //go:linkname directive,     *)
 (*          which makes the file import "unsafe")                          *)
@@ -27,6 +27,20 @@
 (*   u     import used by the body: "" | "pl" (plain import) | "nm" (named *)
 (*         import) | "dot" | "us" (unsafe.Sizeof) | "sy" | "syn" (sync,    *)
 (*         plain / named import)                                           *)
+(*   su    import used by the SIGNATURE of a func / meth / lnk:            *)
+(*         ""    func F(x int32) (res int32)                               *)
+(*         "pl"  parameter of a plain-imported type      (y p1.T)          *)
+(*         "plr" result of a plain-imported type         (z p1.T)          *)
+(*         "plc" constraint from a plain-imported package [T p1.C] (g)     *)
+(*         "nm"  parameter of a named-imported type      (y q.T)           *)
+(*         "dot" parameter of a dot-imported type        (y DotT)          *)
+(*         "us"  parameter unsafe.Pointer                                  *)
+(*         "sy" / "syn" parameter *sync.Mutex / *s.Mutex                   *)
+(*         SuClass(su) is the import class the signature needs.  A         *)
+(*         function whose signature is replaced (override-signature) stays *)
+(*         in the ORIGINAL file: the uses of its old signature disappear   *)
+(*         and the uses of the overlay signature count for the original    *)
+(*         file (see "Imports" below).                                     *)
 (*   g     func has type parameters                                        *)
 (*   specs type/var/const: sequence of Sp(ns, f, d, u)                     *)
 (*         ns names (1 or 2), d "" | "purge" (directive on the spec),      *)
@@ -64,8 +78,8 @@ EXTENDS Integers, Sequences, FiniteSets, TLC
 Prefix == "_gopherjs_original_"
 
 Sp(ns, f, d, u) == [ns |-> ns, f |-> f, d |-> d, u |-> u]
-Dc(k, d, n, r, rk, u, g, specs) ==
-  [k |-> k, d |-> d, n |-> n, r |-> r, rk |-> rk, u |-> u, g |-> g, specs |-> specs]
+Dc(k, d, n, r, rk, u, su, g, specs) ==
+  [k |-> k, d |-> d, n |-> n, r |-> r, rk |-> rk, u |-> u, su |-> su, g |-> g, specs |-> specs]
 
 EmptySide == [bl |-> FALSE, decls |-> <<>>]
 
@@ -90,6 +104,8 @@ NameCount(dc) == IF dc.specs = <<>> THEN 0
 (* Well-formed sides.                                                      *)
 (***************************************************************************)
 FnUses  == {"", "pl", "nm", "dot", "us", "sy", "syn"}
+SigUses == {"", "pl", "plr", "plc", "nm", "dot", "us", "sy", "syn"}
+SuClass(su) == IF su \in {"plr", "plc"} THEN "pl" ELSE su
 ValUses == {"", "pl", "nm", "dot", "us"}
 
 WfSpec(k, sp, ovl) ==
@@ -110,10 +126,13 @@ WfDecl(dc, ovl) ==
                ELSE IF dc.n = "init" THEN {""} ELSE {"", "purge"})
   /\ (IF IsFn(dc)
       THEN /\ dc.specs = <<>>
-           /\ (dc.k = "func" => dc.r = "" /\ dc.rk = "" /\ dc.u \in FnUses /\ (dc.n = "init" => ~dc.g))
+           /\ dc.su \in SigUses
+           /\ (dc.su = "plc" => dc.g)                               \* a constraint needs a type parameter
+           /\ (dc.d = "sig" => dc.u = "")                           \* an override-signature marker has no body
+           /\ (dc.k = "func" => dc.r = "" /\ dc.rk = "" /\ dc.u \in FnUses /\ (dc.n = "init" => ~dc.g /\ dc.su = ""))
            /\ (dc.k = "meth" => dc.rk \in {"val", "ptr", "gen"} /\ dc.u \in FnUses /\ ~dc.g /\ dc.n # "init")
            /\ (dc.k = "lnk" => dc.r = "" /\ dc.rk \in {"doc", "float"} /\ dc.u = "" /\ ~dc.g /\ dc.n # "init")
-      ELSE /\ dc.n = "" /\ dc.r = "" /\ dc.rk = "" /\ dc.u = "" /\ ~dc.g
+      ELSE /\ dc.n = "" /\ dc.r = "" /\ dc.rk = "" /\ dc.u = "" /\ dc.su = "" /\ ~dc.g
            /\ Len(dc.specs) \in 1..3
            /\ \A j \in DOMAIN dc.specs : WfSpec(dc.k, dc.specs[j], ovl)
            /\ Cardinality(SpecNames(dc)) = NameCount(dc)             \* no name twice
@@ -226,11 +245,40 @@ DeclItems(side, s, v) == {x[2] : x \in PosItems(side, s, v)}
 (* remains in the file; a file left without any declaration and without a  *)
 (* linkname directive loses all its imports (comment of pruneImports).     *)
 (* An untouched file keeps its imports as they are.                        *)
+(*                                                                         *)
+(* A function uses the imports its BODY names (field u) and the imports    *)
+(* its SIGNATURE names (field su).  What a function of the original file   *)
+(* uses after the merge depends on its fate:                               *)
+(*   keep  both as written                                                 *)
+(*   ren   (keep-original) both as written: only the name changes          *)
+(*   drop  (overridden, purged, method of a purged type) nothing           *)
+(*   sig   (override-signature) the body as written; the signature is the  *)
+(*         OVERLAY's, so the uses of the original signature are gone and   *)
+(*         the uses of the overlay signature are now uses of the ORIGINAL  *)
+(*         file ("the original function's signature is changed to match",  *)
+(*         the function stays where it was).  Every such change touches    *)
+(*         the file, so "pruneImports will remove any unused imports from  *)
+(*         the file": an import whose last use was the replaced signature  *)
+(*         goes, an import the new signature uses stays.                   *)
+(* In the overlay file the override-signature / purge markers are removed, *)
+(* their uses with them.                                                   *)
+(*                                                                         *)
+(* UNSPECIFIED: the documentation says nothing about an overlay signature  *)
+(* that needs an import the original file does not have (nothing documents *)
+(* that imports are ever added or carried over from the overlay file).     *)
+(* SigImportsOpen marks these pairs; the harness does not judge the        *)
+(* imports of the original file nor the type check of such a pair.         *)
 (***************************************************************************)
+\* uses of function declaration i of side s after the merge (fate # "drop" / not a marker)
+FnUsesAfter(side, s, v, i) ==
+  LET dc == s.decls[i] IN
+  IF side = 1 /\ Fate(dc, v) = "sig"
+  THEN {dc.u, SuClass(v.decls[SigIdx(v, FuncKey(dc))].su)}
+  ELSE {dc.u, SuClass(dc.su)}
 UsesIn(side, s, v, after) ==
   UNION {
     LET dc == s.decls[i] IN
-    IF IsFn(dc) THEN {dc.u}
+    IF IsFn(dc) THEN (IF after THEN FnUsesAfter(side, s, v, i) ELSE {dc.u, SuClass(dc.su)})
     ELSE {dc.specs[j].u : j \in {y \in DOMAIN dc.specs : ~after \/ SpecKept(side, s, v, i, y)}}
     : i \in {x \in DOMAIN s.decls : ~after \/ DeclKept(side, s, v, x)}} \ {""}
 HasLnk(side, s, v, after) == \E i \in DOMAIN s.decls : s.decls[i].k = "lnk" /\ (~after \/ DeclKept(side, s, v, i))
@@ -272,6 +320,16 @@ ImportsAfter(side, s, v) ==
 ImportItems(side, s, v, ip) ==
   {Item("import", ImpKey(c, IF side = 1 THEN ip ELSE ""), 0, 0, 0, side * 1000) : c \in ImportsAfter(side, s, v)}
 
+\* the import a use needs is there / every import is used, blank, dot or kept for a directive
+NoMissingImport(side, s, v) == UsesIn(side, s, v, TRUE) \subseteq ImportsAfter(side, s, v)
+NoUnusedImport(side, s, v) ==
+  \A c \in ImportsAfter(side, s, v) : c \in {"bl", "dot", "us_", "em_"} \/ c \in UsesIn(side, s, v, TRUE)
+\* UNSPECIFIED case: an overlay signature names an import that the original file does not have
+SigImportsOpen(o, v) ==
+  \E i \in DOMAIN o.decls :
+     /\ IsFn(o.decls[i]) /\ Fate(o.decls[i], v) = "sig"
+     /\ LET c == SuClass(v.decls[SigIdx(v, FuncKey(o.decls[i]))].su) IN c # "" /\ c \notin ImportsBefore(1, o, v)
+
 (***************************************************************************)
 (* The merge.                                                              *)
 (***************************************************************************)
@@ -285,6 +343,9 @@ Merged(o, v, ip) == MergedW(o, Ov(v), ip)
 (*  - a keep-original function refers to _gopherjs_original_<name>, which  *)
 (*    must exist (and not be generic: it is referred to uninstantiated)    *)
 (*  - a dot import that is kept must still be used                         *)
+(*  - every import a signature or body names after the merge is imported   *)
+(*    by its file: the overlay signature of an override-signature names    *)
+(*    only imports of the original file (otherwise unspecified, see above) *)
 (*  - override-signature does not add type parameters to a body-less       *)
 (*    (linkname) function                                                  *)
 (* OrigAlone: the original file by itself is a Go package.                 *)
@@ -314,6 +375,8 @@ TypeChecks(o, v0) ==
   /\ \A x \in DOMAIN o.decls :
         (o.decls[x].k = "lnk" /\ Fate(o.decls[x], v) = "sig") => ~v.decls[SigIdx(v, FuncKey(o.decls[x]))].g
   /\ DotOK(1, o, v) /\ DotOK(2, v, v)
+  /\ ~SigImportsOpen(o, v)
+  /\ NoMissingImport(1, o, v) /\ NoMissingImport(2, v, v)
 
 (***************************************************************************)
 (* Theorems about the reference itself, checked by TLC on every pair that  *)
@@ -366,8 +429,20 @@ OnlyInputs(o, v, M) ==
      \E i \in DOMAIN s.decls :
         IF IsFn(s.decls[i]) THEN m.key \in {FuncKey(s.decls[i]), RenKey(s.decls[i])} ELSE m.key \in SpecNames(s.decls[i])
 
+\* T6: after the merge no file has an import that is neither used (by a body, an initialiser or a
+\* signature) nor blank, dot or kept for a directive -- whatever the overlay did to the file, in
+\* particular when its only change is a replaced signature or a renamed function
+\* T7: unless the pair is in the unspecified case, every use has its import (a consistent pair yields
+\* a package without "undefined: p" / "imported and not used")
+ImportsExact(o, w) ==
+  /\ NoUnusedImport(1, o, w) /\ NoUnusedImport(2, w, w)
+  /\ NoMissingImport(2, w, w)
+  /\ (~SigImportsOpen(o, w) => NoMissingImport(1, o, w))
+  \* the imports after the merge are among the imports written (up to unsafe/embed turning blank)
+  /\ \A c \in ImportsAfter(1, o, w) : c \in ImportsBefore(1, o, w) \/ (c = "us_" /\ "us" \in ImportsBefore(1, o, w)) \/ (c = "em_" /\ "em" \in ImportsBefore(1, o, w))
+
 Theorems(o, v, ip) ==
   LET w == Ov(v) M == MergedW(o, w, ip) IN
   /\ OverlayAllIn(v, M) /\ NoDupKeys(M) /\ EmptyIsIdentity(o, ip)
-  /\ Unrelated(o, w) /\ OnlyInputs(o, v, M)
+  /\ Unrelated(o, w) /\ OnlyInputs(o, v, M) /\ ImportsExact(o, w)
 =============================================================================
